@@ -121,6 +121,30 @@ func (p *P) Bulk(d, prefix string, n int) []string {
 	return fhs
 }
 
+// Idle waits for the background shrinker threads; one that is still running 20 s after the last request never ends.
+func (p *P) Idle() bool {
+	for i := 0; i < 5; i++ {
+		if p.S.WaitIdle() {
+			return true
+		}
+	}
+	p.T.Emit(map[string]interface{}{"ev": "fatal", "what": "a background shrinker thread is still running 20 s after the last request"})
+	p.S.Wedged = true
+	return false
+}
+
+// CreateSized is CREATE with an initial size among the attributes of the new file.
+func (p *P) CreateSized(d, name string, size uint64) *Call {
+	c := p.Call("CREATE", d)
+	c.Name, c.SetSize = name, true
+	if size > 1500000000 {
+		c.Size, c.SizeSat, c.RawSize = HUGE, true, size
+	} else {
+		c.Size = int(size)
+	}
+	return p.do(c)
+}
+
 func (p *P) Dump() {
 	// a READ of a hole maps a block: on a nearly full disk the dump's own reads may come back short (see srv.go)
 	DumpTolerantShort = func() bool { fb, _ := p.S.Free(); return fb < 64 }
@@ -611,6 +635,65 @@ func init() {
 		p.Enumerate(d, false, 60000, 40)
 		p.S.WaitIdle()
 		p.T.Emit(TakeSnap(p.S, "run", true))
+	}})
+	Probes = append(Probes, Probe{"truncations-in-a-row-while-shrinkers-are-slow", []string{"C06", "C05"}, 16000, func(p *P) {
+		// a large sparse file cut and re-extended again and again while every background shrinker thread is held up for two
+		// seconds before its first transaction: the requests must not depend on the threads they start (the threads need
+		// the inode lock the request holds when it starts them). The hold-up ends by itself long before a request times out.
+		const B = 4096
+		f := p.Create(p.Root, "f").RFh
+		p.Trunc(f, 1300*B)
+		Mon.Yield = func(ev string) {
+			if ev != "begin" {
+				return
+			}
+			buf := make([]byte, 8192)
+			n := runtime.Stack(buf, false)
+			if strings.Contains(string(buf[:n]), "shrinker.") && !strings.Contains(string(buf[:n]), "NFSPROC3_") {
+				time.Sleep(2 * time.Second)
+			}
+		}
+		defer func() { Mon.Yield = nil }()
+		for i := 0; i < 7 && !p.S.Wedged; i++ {
+			p.Trunc(f, (i%2)*3*B)
+			p.Trunc(f, 1300*B)
+		}
+		g := p.Create(p.Root, "g").RFh
+		p.Trunc(g, 900*B)
+		p.Remove(p.Root, "g")
+		p.Remove(p.Root, "f")
+		if !p.S.Wedged {
+			p.S.WaitIdle()
+			p.T.Emit(TakeSnap(p.S, "run", true))
+		}
+		p.Tail()
+	}})
+	Probes = append(Probes, Probe{"create-with-an-initial-size", []string{"C11", "C02", "C19"}, 0, func(p *P) {
+		// the size among CREATE's initial attributes may be ignored or applied, but never beyond what SETATTR accepts: a file
+		// whose size the block map cannot address crashes a later READ and keeps the thread that frees it busy for ever
+		const B = 4096
+		for i, sz := range []uint64{0, 5000, 40 * B, 1 << 33, 1 << 50, 1<<64 - 1} {
+			name := fmt.Sprintf("s%d", i)
+			c := p.CreateSized(p.Root, name, sz)
+			if c.St != "OK" || !c.HasFh {
+				continue
+			}
+			f := c.RFh
+			p.Getattr(f)
+			p.Read(f, 0, 100)
+			p.Read(f, 3*B, 2*B)
+			for _, off := range []uint64{1 << 31, 1<<32 + 7, 1 << 40, 1 << 62} {
+				r := p.Call("READ", f)
+				r.Off, r.OffSat, r.RawOff, r.Cnt = HUGE, true, off, 100
+				p.do(r)
+			}
+			p.Write(f, 10, 20, 2)
+			p.Remove(p.Root, name)
+			if !p.Idle() {
+				return
+			}
+		}
+		p.Tail()
 	}})
 	Probes = append(Probes, Probe{"remove-while-truncation-is-in-progress", []string{"C05", "C12", "C04"}, 16000, func(p *P) {
 		const B = 4096
